@@ -20,7 +20,7 @@ theorem aaBody_keeps {g : Game P M} (hg : GameOK g) (he : EvalOK g) (hinj : Hash
   intro sm _
   apply Sat.bind
   unfold pvSearch
-  have hs := (search_sound hg he hinj hpr hord (Facts.maxDepth - 1)).1 c 1 (depth - 1) rest (-v - 1) (-v + 1)
+  have hs := (search_sound hg he hinj.ok hpr hord (Facts.maxDepth - 1)).1 c 1 (depth - 1) rest (-v - 1) (-v + 1)
     { s with stackM := sm } hts (by omega)
   refine hs.mono ?_
   rintro ⟨r, s'⟩ ⟨hts', _⟩
@@ -59,7 +59,7 @@ theorem analyzeAll_sound {g : Game P M} (hg : GameOK g) (he : EvalOK g) (hinj : 
     (hts : TableSound g s) :
     Sat (analyzeAll g cfg o p s) (fun x => TableSound g x.2 ∧ VSound g p x.1.2.1) := by
   unfold analyzeAll
-  have ha := Search.analyze_sound hg he hinj hpr hord p s hts
+  have ha := Search.analyze_sound hg he hinj.ok hpr hord p s hts
   cases hr : analyze g cfg o p s with
   | error e => exact Sat.error
   | ok r =>
